@@ -98,3 +98,108 @@ func (c *Ctx) Reachable() map[*ssa.Function]bool {
 	c.reach = reach
 	return reach
 }
+
+// ReqReachable: functions reachable while serving a request. Roots: every
+// first-party function/closure whose value is taken anywhere (router handlers,
+// middleware closures, callbacks stored in structs), go-statement targets, and
+// the gRPC service methods; not main/init themselves, so start-up-only code
+// (config.Load, NewHandler, initOIDC, InitKdcProxy, InitStore) is outside unless
+// a handler also calls it.
+func (c *Ctx) ReqReachable() map[*ssa.Function]bool {
+	if c.reqReach != nil {
+		return c.reqReach
+	}
+	cg := c.P.CallGraph()
+	roots := map[*ssa.Function]bool{}
+	all := c.allFirstPartyFuncs()
+	for _, fn := range all {
+		if fn.Signature.Recv() != nil && typeIs(fn.Signature.Recv().Type(), modPath+"/cmd/auth", "AuthServiceImpl") && fn.Parent() == nil {
+			roots[fn] = true
+		}
+		eachInstr(fn, func(in ssa.Instruction) {
+			if g, ok := in.(*ssa.Go); ok {
+				if f := g.Call.StaticCallee(); f != nil && IsFirstParty(f) {
+					roots[f] = true
+				}
+				if mc, ok := g.Call.Value.(*ssa.MakeClosure); ok {
+					if f, ok := mc.Fn.(*ssa.Function); ok {
+						roots[f] = true
+					}
+				}
+			}
+			var ops []*ssa.Value
+			ops = in.Operands(ops)
+			for _, op := range ops {
+				if op == nil || *op == nil {
+					continue
+				}
+				switch x := (*op).(type) {
+				case *ssa.Function:
+					if !IsFirstParty(x) {
+						continue
+					}
+					if ci, ok := in.(*ssa.Call); ok && ci.Call.Value == ssa.Value(x) {
+						continue // direct call
+					}
+					if d, ok := in.(*ssa.Defer); ok && d.Call.Value == ssa.Value(x) {
+						continue
+					}
+					roots[x] = true
+				case *ssa.MakeClosure:
+					f, ok := x.Fn.(*ssa.Function)
+					if !ok || !IsFirstParty(f) {
+						continue
+					}
+					if d, ok := in.(*ssa.Defer); ok && d.Call.Value == ssa.Value(x) {
+						continue // deferred closure: reached through its parent
+					}
+					if ci, ok := in.(*ssa.Call); ok && ci.Call.Value == ssa.Value(x) {
+						continue
+					}
+					roots[f] = true
+				}
+			}
+			if mc, ok := in.(*ssa.MakeClosure); ok {
+				if f, ok := mc.Fn.(*ssa.Function); ok && f.Synthetic != "" && strings.HasSuffix(f.Name(), "$bound") {
+					roots[f] = true
+				}
+			}
+		})
+	}
+	reach := map[*ssa.Function]bool{}
+	var work []*ssa.Function
+	for r := range roots {
+		sf := shortFn(r)
+		if sf == "cmd/rdpgw.main" || sf == "cmd/auth.main" {
+			continue
+		}
+		work = append(work, r)
+	}
+	for len(work) > 0 {
+		f := work[len(work)-1]
+		work = work[:len(work)-1]
+		if reach[f] {
+			continue
+		}
+		reach[f] = true
+		if n := cg.Nodes[f]; n != nil {
+			for _, e := range n.Out {
+				if !reach[e.Callee.Func] {
+					work = append(work, e.Callee.Func)
+				}
+			}
+		}
+		// deferred closures and closures called in place
+		eachInstr(f, func(in ssa.Instruction) {
+			if ci, ok := in.(ssa.CallInstruction); ok {
+				if mc, ok := ci.Common().Value.(*ssa.MakeClosure); ok {
+					if g, ok := mc.Fn.(*ssa.Function); ok && !reach[g] {
+						work = append(work, g)
+					}
+				}
+			}
+		})
+	}
+	c.reqReach = reach
+	return reach
+}
